@@ -134,6 +134,14 @@ def gen(seed, index, tier):
     }
     if rng.random() < 0.5:
         sc["bursts"].append(_burst(rng, rng.choice([2, 3, 4])))
+    if rng.random() < 0.15:
+        # one worker runs into a transient failure (descriptor table full, I/O error) while it builds the menu
+        # of /docs; whatever it answers to its own client, nobody else may be served a degraded menu
+        sc["bursts"][0][0]["kind"] = rng.choice(["menu", "menu", "menu-via-symlink"])
+        sc["transient"] = {"op": rng.choice(["open", "stat", "open"]),
+                           "rel": "docs/" + rng.choice(["page2.htm", "doc0.txt", "doc0.txt.abstract", ".abstract",
+                                                        "photo.gif", "sub"]),
+                           "kind": rng.choice(["EMFILE", "EIO", "EACCES"]), "nth": rng.choice([0, 0, 1, 2])}
     if rng.random() < 0.1:
         # a storm on one archive: many workers rebuild and rewrite the same index cache files at once
         storm = []
@@ -225,6 +233,12 @@ def execute(sc, tape=None):
                     out, _ = harness.one_shot(refroot, req, tls=tls, handlers="full",
                                               seed=sc["sched_seed"])
                     refs[key] = proto.normalize(cl["proto"], out)
+        if sc.get("transient"):
+            for kind_, p_ in (("menu", "gopher"), ("menu-via-symlink", "gopher")):
+                if (kind_, p_, None) not in refs:
+                    rq_, tls_ = proto.make_request(p_, KINDS[kind_])
+                    o_, _ = harness.one_shot(refroot, rq_, tls=tls_, handlers="full", seed=sc["sched_seed"])
+                    refs[(kind_, p_, None)] = proto.normalize(p_, o_)
         tp = Tape(sc["sched_seed"], replay=tape)
         pol = sc["policy"]
         run = harness.SimRun(root, tp, sc["sched_seed"], servertype=sc["servertype"], tls=True,
@@ -245,8 +259,14 @@ def execute(sc, tape=None):
             def on_switch_probe():
                 pass
 
+            trans = None
             for bi, burst in enumerate(sc["bursts"]):
                 t0 = 0.0
+                if bi == 0 and sc.get("transient"):
+                    tr_ = sc["transient"]
+                    trans = simfs.Fault(tr_["op"], tr_["rel"], tr_["kind"], nth=tr_["nth"],
+                                        mode="r" if tr_["op"] == "open" else None)
+                    run.fs.faults.append(trans)
                 conns = [(_start_client(run, cl, t0), cl) for cl in burst]
                 # sample worker overlap through the scheduler's history afterwards
                 st = run.go()
@@ -258,7 +278,32 @@ def execute(sc, tape=None):
                 # serve_forever's periodic wake-up
                 run.poll += 1
                 run.go()
+                hit = False
+                if trans is not None and bi == 0:
+                    run.fs.faults.remove(trans)
+                    hit = bool(trans.fired)
+                    if hit:
+                        counters["transient_failure_in_a_worker"] = 1
+                        # a lone client, right afterwards (well inside the cache lifetime)
+                        for kind_, p_ in (("menu", "gopher"), ("menu-via-symlink", "gopher")):
+                            key_ = (kind_, p_, None)
+                            rq_, tls_ = proto.make_request(p_, KINDS[kind_])
+                            pc_ = run.client(rq_, tls=tls_)
+                            run.go()
+                            got_ = proto.normalize(p_, bytes(pc_.s2c))
+                            if got_ != refs[key_] and viol is None:
+                                viol = {"oracle": "isolation",
+                                        "signature": {"oracle": "isolation", "kind": kind_, "reply": "degraded-menu-served-later",
+                                                      "exc": None},
+                                        "detail": "after a transient %s on %s in one worker, a lone client got %r, want %r" % (
+                                            sc["transient"]["kind"], sc["transient"]["rel"], common.short(got_, 200),
+                                            common.short(refs[key_], 200))}
                 for c, cl in conns:
+                    if hit and cl["kind"] in ("menu", "menu-via-symlink", "menu-root"):
+                        # one of these workers saw the failure: its own answer may lack the entry, and which
+                        # worker it was is not observable from outside
+                        resps.append(bytes(c.s2c))
+                        continue
                     role = cl["net"]["role"]
                     resps.append(bytes(c.s2c))
                     if c.tls:
